@@ -655,7 +655,7 @@ def judge(ctx, tasks, results):
 
 
 def run(ctx):
-    count = 4200 if ctx.tier == "thorough" else 700
+    count = 4200 if ctx.tier == "thorough" else 420
     tasks = load_corpus() + gen_tasks(ctx, count)
     results = common.pmap(run_history, tasks)
     judge(ctx, tasks, results)
